@@ -151,6 +151,12 @@ class SemantivaOrchestrator(ABC):
             node_uuids = [n["node_uuid"] for n in canonical.get("nodes", [])]
             upstream_map = compute_upstream_map(canonical)
             run_id = f"run-{uuid.uuid4().hex}"
+            # Enrich a copy below: the caller's canonical spec (and with it the
+            # pipeline id of the next run) must not change from run to run
+            canonical = {
+                **canonical,
+                "nodes": [dict(n) for n in canonical.get("nodes", [])],
+            }
 
             # Resolve processor classes without instantiating nodes
             proc_classes = self._resolve_processor_classes(canonical, resolved_spec)
